@@ -1,5 +1,7 @@
 SPECIFICATION Spec
 CONSTANT ReownAtApply = FALSE
+CONSTANT ResetTracking = TRUE
+CONSTANT ItemWritesBack = FALSE
 CONSTANT MaxOps = 5
 INVARIANT OwnedByApplied
 PROPERTY HistoryFree
